@@ -304,3 +304,5 @@ def run(ctx):
     boundaries.check_guards(ctx, 'C15.RG', 'C15')
     from .. import boundaries as _b
     _b.check_predicates(ctx, 'C15.RP', 'C15')
+    from .. import boundaries as _b
+    _b.check_counts(ctx, 'C15.RQ', 'C15')
